@@ -32,6 +32,10 @@ package pipeline
 // error of the decoder itself, not whatever the shared err variable holds), already
 // committed (stream offset), antispam, or the input's PassEvent (streamEvent == 0).
 
+// ("Records within the limit are never altered": with the raw decoder the message
+// is the record itself, minus a trailing newline if it has one - inputs hand
+// records over in both forms.)
+
 //@ func (*Pipeline).In
 //@   ghost g_so int = 0
 //@   ghost g_spam bool = false
@@ -42,6 +46,10 @@ package pipeline
 //@   ensures held == 0
 //@   ghost g_undec bool = false
 //@   ensures result == 0 ==> !ok || g_undec || (g_so > 0 && offsets.current < g_so) || g_spam || g_pass0
+//@   callee AddFieldNoAlloc(root, name) (n)
+//@     pure
+//@   callee MutateToBytesCopy(root, v)
+//@     requires dec == decoder.RAW ==> sameblock(v, bytes) && off(v) == off(bytes) && len(v) == ite(bytes[len(bytes) - 1] == '\n', len(bytes) - 1, len(bytes))
 //@   callee DecodeCRI(b) (row, e)
 //@     pure
 //@     set g_undec := e != nil
